@@ -374,7 +374,8 @@ def run_C09(ctx):
             hs.append((default_names(), [("path", list(items), o, d)]))
             if L >= 2 and rng.random() < 0.15:
                 hs.append((default_names(), [("link", "n0", "l1", "n1"), ("path", list(items), 0, 0), ("read", "nodes_by_name")]))
-    d_ = run_histories(ctx, hs, out, judge_c08=False, judge_c09=True)
+    # the attachments are also observed through the public look-ups (a stale answer there misreports them)
+    d_ = run_histories(ctx, hs, out, judge_c08=True, judge_c09=True, prefix="C09")
     out["coverage"]["distinct_nontrivial"] = len({repr(h) for _, h in hs if len(h) >= 1 and any(o[0] != "read" for o in h)})
     out["coverage"]["rule"] = ("construction histories (as C08) plus the malformed-path stream: every item sequence up to length "
                                f"{4 if quick else 6} over {{node, node, link, other}} with/without origin and destination; after "
